@@ -92,6 +92,30 @@ Proof.
   - vm_compute. reflexivity.
 Qed.
 
+(* mx t l = the maximum of the tents of the characteristic points l at t; boundedl = births and deaths strictly between the
+   sentinels -INT_MAX and INT_MAX.  One level of the sweep: the breakpoint list stored for the level (after std::unique) is
+   strictly increasing, has ordinate 0 at its two outer points on either side, runs from -INF to INF, and its PL
+   interpolation is the upper envelope of the swept tents *)
+Theorem C18_sweep_one_level_envelope : forall cps F newc, one_level cps = Some (F, newc) ->
+  lexsorted cps -> validl cps -> epssep cps -> boundedl cps ->
+  xsorted F /\ (3 <= length F)%nat /\
+  snd (nthp F 0) == 0 /\ snd (nthp F 1) == 0 /\ snd (nthp F (length F - 2)) == 0 /\ snd (nthp F (length F - 1)) == 0 /\
+  fst (nthp F 0) == - INF /\ fst (nthp F (length F - 1)) == INF /\
+  forall t, - INF < t -> interp F t == mx t cps.
+Proof. exact one_level_envelope. Qed.
+Print Assumptions C18_sweep_one_level_envelope.
+
+(* THE CONSTRUCTION EQUALS THE DEFINITION.  For every finite diagram with birth <= death, coordinates strictly between the
+   sentinels and births that are not closer than the tolerance 5e-6 unless equal: the landscape built by the transcribed
+   construct_persistence_landscape_from_barcode (sort, characteristic points, sweep with all its tie-handling branches,
+   std::unique) and evaluated by the transcribed compute_value_at_a_given_point (support test, bisection, function_value)
+   yields lambda_k(t), the k-th largest tent value, for every level k and every abscissa t between the sentinels. *)
+Theorem C18_sweep_eq_lambda : forall D land, valid_diagram D -> eps_separated D -> bounded_diagram D ->
+  construct D 0 = Some land ->
+  forall k t, - INF < t -> t < INF -> exists v, value_at land k t = Some v /\ v == lambda D k t.
+Proof. exact sweep_eq_lambda. Qed.
+Print Assumptions C18_sweep_eq_lambda.
+
 (* ---------------------------------------------------------------- piecewise-linear functions *)
 (* a PL function takes its ordinate at each of its breakpoints *)
 Theorem C18_interp_at_breakpoint : forall l p, xsorted l -> In p l -> interp l (fst p) == snd p.
@@ -288,16 +312,6 @@ Proof. exact grid_value_at_grid_point. Qed.
 Print Assumptions C18_grid_value_at_grid_point.
 
 (* ---------------------------------------------------------------- not proved: compared per input by the correspondence run *)
-(* the breakpoint list produced at level j (first component of one_level), evaluated by the bisection of
-   compute_value_at_a_given_point, yields lambda_j(t).  Proved: the lists swept at each level carry the right tents
-   (C18_sweep_residual_lambda) and the bisection evaluates the PL interpolation (C18_value_at_is_interp).  Missing: that the
-   breakpoints pushed to lambda_n are the upper envelope of the swept tents.  Evaluated on every generated input. *)
-Definition C18_sweep_eq_lambda_full : Prop :=
-  forall D k t, valid_diagram D ->
-    match construct D 0 with
-    | Some land => match value_at land k t with Some v => v == lambda D k t | None => False end
-    | None => False
-    end.
 (* the merge of two different breakpoint lists (operation_on_pair_of_landscapes) is the pointwise operation.
    Proved here only for equal abscissae (C18_pl_add_pointwise / C18_pl_sub_pointwise). *)
 Definition C18_merge_pointwise_full : Prop :=
